@@ -32,7 +32,10 @@ RULE = (
     "and declares the summed n_channels_dat. The known finding F13 (zero-width probe followed by "
     "a probe starting at x == 0) is excluded by construction and counted. Whitening matrices are general, lower / upper triangular or diagonal (all probes alike, or mixed). "
     "Half of the cases merge the same probes a second time in the same "
-    "process (a new Merger, or merge() called again on the same object) and verify again. Non-trivial: >=3 probes or unequal channel/template counts.")
+    "process (a new Merger, or merge() called again on the same object) and verify again. Non-trivial: >=3 probes or unequal channel/template counts."
+    ' Later additions: merge() again on the same Merger, the probes merged in reverse order over '
+    'the earlier output, write_templates() on its own, relative probe paths, (1, n) channel vecto'
+    'rs, mixed template dtypes.')
 ASSUMPTIONS = ['merging requires amplitudes.npy, pc_feature_ind.npy, template_feature_ind.npy and '
                'spike_clusters.npy in every probe', 'index tables have the same width in every '
                'probe (otherwise they cannot be stacked)']
